@@ -560,19 +560,25 @@ def model_input(cfg, spec, t, selected=True):
 
 
 def model_output(cfg, spec, t, k, selected=True):
-    """Same for the output rails applied to the LLM text `LM{t}C{k}Z` (verdicts of the turn the rails run in)."""
+    """Same for the output rails applied to the LLM text `LM{t}C{k}Z` (verdicts of the turn the rails run in).
+
+    The statement of C02 does not say that a rejection ends the chain (C01 says so for input rails only), so
+    "calls" lists the whole chain - a rail after a rejecting one, if it runs at all, sees the unchanged text -
+    and "blocked" is the first rejecting rail; "need" = number of leading calls after which the verdict on the
+    text is settled (all rails, or up to and including the first rejecting one)."""
     orig = cur = fakes.mk_llm(t, k)
     calls = []
-    if not selected:
-        return {"calls": calls, "blocked": None, "final": cur, "orig": orig}
-    for i, kind in enumerate(cfg.get("out", [])):
-        v = fakes.eff(kind, (spec.get("out") or [])[i] if i < len(spec.get("out") or []) else "accept")
-        calls.append({"rail": f"out{i}", "sees": cur, "not": orig if cur != orig else None, "verdict": v})
-        if v == "reject":
-            return {"calls": calls, "blocked": i, "final": cur, "orig": orig}
-        if v == "rewrite":
-            cur = fakes.mk_rw_out(i, t, k)
-    return {"calls": calls, "blocked": None, "final": cur, "orig": orig}
+    blocked = None
+    if selected:
+        for i, kind in enumerate(cfg.get("out", [])):
+            v = fakes.eff(kind, (spec.get("out") or [])[i] if i < len(spec.get("out") or []) else "accept")
+            calls.append({"rail": f"out{i}", "sees": cur, "not": orig if cur != orig else None, "verdict": v})
+            if v == "reject" and blocked is None:
+                blocked = i
+            if v == "rewrite":
+                cur = fakes.mk_rw_out(i, t, k)
+    need = len(calls) if blocked is None else blocked + 1
+    return {"calls": calls, "blocked": blocked, "final": cur, "orig": orig, "need": need}
 
 
 def chain_problem(calls, entries, what, prefix_ok=False):
